@@ -5,6 +5,7 @@ import (
 	"encoding/json"
 	"fmt"
 	"os"
+	"runtime"
 	"strconv"
 	"strings"
 	"testing"
@@ -61,6 +62,10 @@ type Stats struct {
 	MaxThreads   int             `json:"max_threads"`
 	Inconclusive int             `json:"inconclusive"`
 	SitesHit     map[string]bool `json:"sites_hit,omitempty"`
+	// NextK > 0: the process stopped early because its memory grew past SIM_MEM_MB (goroutines left
+	// blocked at the end of a simulation can never be released); the driver starts a fresh process
+	// with SIM_FROM = NextK
+	NextK int `json:"next_k,omitempty"`
 }
 
 func splitmix(x uint64) uint64 {
@@ -241,9 +246,20 @@ func workerSearch(t *testing.T, p *Property, tier string, enc *json.Encoder) {
 	var sigs []uint64
 	classes := map[string]int{}
 	pairs := map[string]bool{}
-	for i := idx; i < runs; i += nw {
+	from := envInt("SIM_FROM", 0)
+	memLimit := uint64(envInt("SIM_MEM_MB", 1200)) << 20
+	var ms runtime.MemStats
+	for k := from; idx+k*nw < runs; k++ {
+		i := idx + k*nw
 		if time.Since(start) > wall {
 			break
+		}
+		if (k-from)%256 == 255 {
+			runtime.ReadMemStats(&ms)
+			if ms.Sys-ms.HeapReleased > memLimit {
+				st.NextK = k
+				break
+			}
 		}
 		seed := splitmix(base*1000003 + uint64(i))
 		if st.Runs == 0 {
